@@ -34,6 +34,11 @@ CLAIMED = {
    text="For every input length 0..12 and every location pest can report (Pos / Span with symbolic absolute offsets within the input), the parse error built by the real code carries a source text and a span with start <= end <= len(text), the text being the very input the offsets refer to; the display-span conversion does not underflow. Bounded model checking over the conversion functions; analysis-error spans and UTF-8 boundaries are outside.",
    note="pest's Error object is a contract model (field order read from the pinned pest source); mirsym interpreter + std models trusted.",
    design="§3 C19"),
+ "C08": dict(
+   technique="symbolic execution of the MIR of the redeemer and body assembly (mirsym -> z3) with symbolic transaction ids, output indices and policy ids",
+   text="For 2-3 script inputs and 2-3 mint/burn blocks whose txid byte, output index (u32) and policy byte are symbolic - every relative order - the real compile_tx_body + compile_redeemers are executed from MIR and the emitted (tag, index) -> data map is shown equal to the map obtained by ranking each item among the ledger-sorted inputs / policies: one redeemer per guarded item, at the index of that item. Bounded: <= 3 items per kind, integer redeemer data.",
+   note="mirsym + std/pallas models (BTreeMap as ordered association list, sort with forked comparisons). Withdrawal redeemers and multi-UTxO inputs: see known findings / DESIGN.",
+   design="§3 C08"),
 }
 
 NA = {
